@@ -110,6 +110,12 @@ const c18LongTimeoutMs = 2000
 
 func c18GenLimit(r interface{ Intn(int) int }, timed bool) c18LimScn {
 	sc := c18LimScn{N: 1 + r.Intn(3), Timed: timed, Balanced: r.Intn(3) == 0}
+	if r.Intn(10) == 0 {
+		// configuration boundary: a limit of 0 lends nothing. TryBorrow is always refused,
+		// Return always ErrLimitReturn, a timed Borrow times out. (The blocking Borrow is
+		// left out: on an unbuffered channel it would rendezvous with a stray Return.)
+		sc.N = 0
+	}
 	tight := r.Intn(2) == 0
 	nclients, percl := 2+r.Intn(5), 2+r.Intn(6)
 	if sc.Balanced && r.Intn(3) == 0 {
@@ -124,9 +130,11 @@ func c18GenLimit(r interface{ Intn(int) int }, timed bool) c18LimScn {
 				op.Op = c18OpBorrow
 				if timed {
 					op.T = 1 + r.Intn(3)
-					if r.Intn(3) == 0 {
+					if r.Intn(3) == 0 && sc.N > 0 {
 						op.T = c18LongTimeoutMs
 					}
+				} else if sc.N == 0 {
+					op.Op = c18OpTry
 				}
 			case x < 6:
 				op.Op = c18OpTry
@@ -474,6 +482,9 @@ loop:
 	m.Max(name+"_max_outstanding_seen_by_callers", int64(atomic.LoadInt32(&gaugeMax)))
 	if !checked {
 		m.Count(name+"_histories_gauge_only", 1)
+	}
+	if sc.N == 0 {
+		m.Count(name+"_histories_with_limit_zero", 1)
 	}
 	m.Case(name+c18OrderDigest(ops), nref > 0)
 	if nref > 0 && m.WantSample() && idx%29 == 1 {
